@@ -605,6 +605,7 @@ def run_history(case, R):
         f['basin'] = basin
         return f
     first = {}
+    first_lost = {}
     ncompared = 0
     nrepeat = 0
     bigjump = 0
@@ -619,14 +620,18 @@ def run_history(case, R):
         R.observe('queries')
         R.observe('q_' + k)
         # ---------------------------------------------------------------- warmed object
-        lost = None
-        if tc == 'b':
+        def lost_now():
             # structural fact for the classifier: the cached two-phase composition sets of the warmed object have
-            # already lost a phase (the solver removes unstable phases from the cached list in place)
+            # lost a phase (the solver removes unstable phases from the cached list in place)
+            if tc != 'b':
+                return None
             pn = q.get('prec') or W.phases[1]
             cc = (getattr(W, '_compset_cache_curvature', {}) if k in CURV_KINDS else W._compset_cache_df).get(pn)
-            lost = bool(cc is not None and len(cc) < 2)
+            return bool(cc is not None and len(cc) < 2)
+        lost = lost_now()
         cw = _Call(W, q, binary, None, R, 'warm', sysn)
+        if lost is not None:
+            lost = bool(lost or lost_now())
         # ---------------------------------------------------------------- fresh references (single points)
         want_new = (k in CURV_KINDS) or (rng.random() < P_BRAND_NEW)
         stable = [stable_at(q, i) for i in range(n)]
@@ -712,11 +717,14 @@ def run_history(case, R):
             nrepeat += 1
             if first.get(j) is not None and cw.exc is None and is_valid(cw.arrs) and dom_ok:
                 mech = dict(mech0, gap=min(qi - j, 2))
+                if lost is not None:
+                    mech['cache_lost_phase'] = bool(lost or first_lost.get(j))
                 if k == 'df' and not q.get('batch'):
                     mech.update(df_facts(q, first[j], cw.arrs))
                 _compare(R, 'repeat_vs_first', q, case, cw.arrs, first[j], mech, tol, 'repeat_vs_first_' + tc, base_detail)
         else:
             first[qi] = cw.arrs if (cw.exc is None and is_valid(cw.arrs)) else None
+            first_lost[qi] = lost
         # immediate repetition of the same call (same state, fresh argument arrays)
         if rng.random() < 0.25 and cw.exc is None and is_valid(cw.arrs) and compared_here:
             c2 = _Call(W, q, binary, None, R, 'warm', sysn)
@@ -727,6 +735,8 @@ def run_history(case, R):
                 R.check('repeat_vs_first', False, dict(mech0, gap=0, field=None, warm_no_result=True), query=q, **base_detail)
             else:
                 mech = dict(mech0, gap=0)
+                if lost is not None:
+                    mech['cache_lost_phase'] = bool(lost or lost_now())
                 if k == 'df' and not q.get('batch'):
                     mech.update(df_facts(q, cw.arrs, c2.arrs))
                 _compare(R, 'repeat_vs_first', q, case, c2.arrs, cw.arrs, mech, tol, 'repeat_vs_first_' + tc, base_detail)
